@@ -5,6 +5,7 @@ import (
 	"context"
 	"encoding/base64"
 	"fmt"
+	"math"
 	"sort"
 	"strings"
 	"testing"
@@ -876,4 +877,56 @@ func seq(n int) []int {
 		s[i] = i
 	}
 	return s
+}
+
+// ---------------------------------------------------------------------------
+// Numbers JSON cannot express (.inf, -.inf, .nan are legal YAML and reach plugin configs as float64s).
+// The payload is JSON, so such a step either cannot be signed at all - or, if a signature is made,
+// it must bind the value like any other: replacing it by another such number or by null is a change.
+
+var recNonFinite = ev.New("TestNonFiniteNumbersAreNotSignedAsSomethingElse", "command steps whose plugin config holds +Inf, -Inf or NaN at the top level, inside a list or inside a nested mapping x key kind in {EdDSA, ES256 signer}: Sign must refuse the step, or else every replacement of that value by another non-finite number or by null must make Verify fail; enumerated; non-trivial = all rows; distinct by construction")
+
+func TestNonFiniteNumbersAreNotSignedAsSomethingElse(t *testing.T) {
+	ev.SkipIfReplayingOther(t)
+	ctx := context.Background()
+	pool := keys.Pool()
+	vals := map[string]any{"+Inf": math.Inf(1), "-Inf": math.Inf(-1), "NaN": math.NaN(), "null": nil}
+	build := func(where int, v any) *pipeline.CommandStep {
+		cfg := map[string]any{"image": "alpine"}
+		switch where {
+		case 0:
+			cfg["timeout"] = v
+		case 1:
+			cfg["limits"] = []any{1, v, "x"}
+		default:
+			cfg["nested"] = map[string]any{"deep": map[string]any{"timeout": v}}
+		}
+		return &pipeline.CommandStep{Command: "echo", Plugins: pipeline.Plugins{{Source: "docker#v1", Config: cfg}}}
+	}
+	for _, kp := range []keys.Pair{pool[0], pool[1]} {
+		for where := 0; where < 3; where++ {
+			for name, v := range vals {
+				if name == "null" {
+					continue
+				}
+				sf := &signature.CommandStepWithInvariants{CommandStep: *build(where, v), RepositoryURL: "repo"}
+				sig, err := signature.Sign(ctx, kp.Priv, sf)
+				if err != nil {
+					recNonFinite.Case(ev.Hash(kp.Kind, where, name), true, "outcome=sign-refuses")
+					continue
+				}
+				for other, w := range vals {
+					if other == name {
+						continue
+					}
+					sf2 := &signature.CommandStepWithInvariants{CommandStep: *build(where, w), RepositoryURL: "repo"}
+					if verr := signature.Verify(ctx, sig, kp.Pub, sf2); verr == nil {
+						t.Fatalf("a signature made over a plugin config holding %s (position %d, key %s) still verifies after the value became %s", name, where, kp.Kind, other)
+					}
+				}
+				recNonFinite.Case(ev.Hash(kp.Kind, where, name), true, "outcome=signed-and-bound")
+			}
+		}
+	}
+	recNonFinite.Exhaustive()
 }
